@@ -8,8 +8,23 @@ use std::time::Duration;
 use uuid::Uuid;
 
 pub fn http_call(addr: &str, r: &RawReq) -> Result<(HttpInfo, Vec<u8>), String> {
-    let mut s = TcpStream::connect(addr).map_err(|e| format!("connect {addr}: {e}"))?;
     let tmo = std::env::var("TCSS_SOCK_TIMEOUT").ok().and_then(|x| x.parse::<u64>().ok()).unwrap_or(60);
+    // connect with a timeout: a listening socket nobody accepts on would otherwise block for minutes
+    let mut s = {
+        use std::net::ToSocketAddrs;
+        let mut last = format!("connect {addr}: no address");
+        let mut got = None;
+        for sa in addr.to_socket_addrs().map_err(|e| format!("resolve {addr}: {e}"))? {
+            match TcpStream::connect_timeout(&sa, Duration::from_secs(tmo.min(10))) {
+                Ok(s) => {
+                    got = Some(s);
+                    break;
+                }
+                Err(e) => last = format!("connect {addr}: {e}"),
+            }
+        }
+        got.ok_or(last)?
+    };
     s.set_read_timeout(Some(Duration::from_secs(tmo))).ok();
     s.set_write_timeout(Some(Duration::from_secs(tmo))).ok();
     let mut head: Vec<u8> = vec![];
